@@ -109,6 +109,12 @@ class XPathToken(Token[ta.XPathTokenType]):
         elif symbol == '=>':
             if isinstance(self[1], self.registry.function_token):
                 return '%s => %s%s' % (self[0].source, self[1].symbol, self[2].source)
+            elif self[1].symbol in (':', 'Q{') and \
+                    isinstance(self[1][1], self.registry.function_token):
+                # a prefixed or braced function name: omit the arguments of the function token
+                name = '%s:' % self[1][0].source if self[1].symbol == ':' \
+                    else 'Q{%s}' % self[1][0].value
+                return '%s => %s%s%s' % (self[0].source, name, self[1][1].symbol, self[2].source)
             return '%s => %s%s' % (self[0].source, self[1].source, self[2].source)
         elif symbol == 'if':
             return 'if (%s) then %s else %s' % (self[0].source, self[1].source, self[2].source)
